@@ -18,6 +18,15 @@ type kvStore struct {
 	vals map[string][]byte
 	keys []string
 	open bool
+	// hist: every committed version of every key, oldest first, tombstones included (Badger is
+	// multi-versioned: old versions stay until a compaction drops them, and an iterator opened
+	// with AllVersions sees them; the model never compacts)
+	hist map[string][]histEnt
+}
+
+type histEnt struct {
+	val []byte
+	del bool
 }
 
 type pending struct {
@@ -36,11 +45,20 @@ type txnState struct {
 	writes []pending
 }
 
+type iterEnt struct {
+	key string
+	val []byte
+	del bool
+	ver uint64
+}
+
 type iterState struct {
-	tx   *txnState
-	keys []string
-	pos  int
-	cur  *itemState // the item handed out at the current position
+	tx      *txnState
+	ents    []iterEnt
+	pos     int
+	reverse bool
+	prefix  string
+	cur     *itemState // the item handed out at the current position
 }
 
 type itemState struct {
@@ -52,6 +70,8 @@ type itemState struct {
 	// that a retained alias shows up at any size, not only beyond the prefetch window.
 	fromIter bool
 	keyBuf   []byte
+	del      bool
+	ver      uint64
 }
 
 func poison(b []byte) {
@@ -93,12 +113,20 @@ func (s *kvStore) Put(key string, val []byte) {
 		s.keys = append(s.keys, key)
 	}
 	s.vals[key] = val
+	if s.hist == nil {
+		s.hist = map[string][]histEnt{}
+	}
+	s.hist[key] = append(s.hist[key], histEnt{val: val})
 }
 func (s *kvStore) Get(key string) ([]byte, bool) {
 	v, ok := s.vals[key]
 	return v, ok
 }
 func (s *kvStore) Del(key string) {
+	if s.hist == nil {
+		s.hist = map[string][]histEnt{}
+	}
+	s.hist[key] = append(s.hist[key], histEnt{del: true})
 	if _, ok := s.vals[key]; !ok {
 		return
 	}
@@ -262,45 +290,102 @@ func TxnGet(txn *badger.Txn, key []byte) (*badger.Item, error) {
 func TxnNewIterator(txn *badger.Txn, opt badger.IteratorOptions) *badger.Iterator {
 	ts := KV.txns[txn]
 	it := new(badger.Iterator)
-	is := &iterState{tx: ts}
+	is := &iterState{tx: ts, reverse: opt.Reverse, prefix: string(opt.Prefix)}
 	if ts != nil {
+		var keys []string
 		seen := map[string]bool{}
-		for _, k := range ts.st.keys {
-			if _, ok := ts.read(k); ok {
-				is.keys = append(is.keys, k)
+		if opt.AllVersions {
+			for k := range ts.st.hist {
+				keys = append(keys, k)
 				seen[k] = true
+			}
+		} else {
+			for _, k := range ts.st.keys {
+				if _, ok := ts.read(k); ok {
+					keys = append(keys, k)
+					seen[k] = true
+				}
 			}
 		}
 		for _, w := range ts.writes {
 			if !w.del && !seen[w.key] {
 				if _, ok := ts.read(w.key); ok {
-					is.keys = append(is.keys, w.key)
+					keys = append(keys, w.key)
 					seen[w.key] = true
 				}
 			}
 		}
-		sort.Strings(is.keys)
+		sort.Strings(keys)
+		for _, k := range keys {
+			if opt.AllVersions {
+				// the transaction's own pending write first, then every committed version, newest first
+				if v, ok := ts.pendingWrite(k); ok {
+					is.ents = append(is.ents, iterEnt{key: k, val: v.val, del: v.del, ver: 1 << 62})
+				}
+				h := ts.st.hist[k]
+				for i := len(h) - 1; i >= 0; i-- {
+					is.ents = append(is.ents, iterEnt{key: k, val: h[i].val, del: h[i].del, ver: uint64(i + 1)})
+				}
+			} else {
+				v, _ := ts.read(k)
+				is.ents = append(is.ents, iterEnt{key: k, val: v, ver: uint64(len(ts.st.hist[k]))})
+			}
+		}
+		if opt.Reverse {
+			for i, j := 0, len(is.ents)-1; i < j; i, j = i+1, j-1 {
+				is.ents[i], is.ents[j] = is.ents[j], is.ents[i]
+			}
+		}
 	}
-	is.pos = len(is.keys)
+	is.pos = len(is.ents)
 	KV.iters[it] = is
 	return it
+}
+
+func (ts *txnState) pendingWrite(key string) (pending, bool) {
+	for i := len(ts.writes) - 1; i >= 0; i-- {
+		if ts.writes[i].key == key {
+			return ts.writes[i], true
+		}
+	}
+	return pending{}, false
+}
+
+func (is *iterState) inPrefix(k string) bool {
+	return len(k) >= len(is.prefix) && k[:len(is.prefix)] == is.prefix
 }
 
 func IterSeek(it *badger.Iterator, key []byte) {
 	is := KV.iters[it]
 	k := string(key)
+	if len(key) == 0 {
+		k = is.prefix
+	}
 	is.pos = 0
-	for is.pos < len(is.keys) && is.keys[is.pos] < k {
+	if is.reverse {
+		for is.pos < len(is.ents) && len(key) > 0 && is.ents[is.pos].key > k {
+			is.pos++
+		}
+		return
+	}
+	for is.pos < len(is.ents) && is.ents[is.pos].key < k {
 		is.pos++
 	}
 }
 
+func IterRewind(it *badger.Iterator) { IterSeek(it, nil) }
+
+func IterValid(it *badger.Iterator) bool {
+	is := KV.iters[it]
+	return is.pos < len(is.ents) && is.inPrefix(is.ents[is.pos].key)
+}
+
 func IterValidForPrefix(it *badger.Iterator, prefix []byte) bool {
 	is := KV.iters[it]
-	if is.pos >= len(is.keys) {
+	if !IterValid(it) {
 		return false
 	}
-	k := is.keys[is.pos]
+	k := is.ents[is.pos].key
 	p := string(prefix)
 	return len(k) >= len(p) && k[:len(p)] == p
 }
@@ -316,10 +401,9 @@ func IterNext(it *badger.Iterator) {
 
 func IterItem(it *badger.Iterator) *badger.Item {
 	is := KV.iters[it]
-	k := is.keys[is.pos]
-	v, _ := is.tx.read(k)
+	e := is.ents[is.pos]
 	item := new(badger.Item)
-	st := &itemState{key: k, val: v, fromIter: true}
+	st := &itemState{key: e.key, val: e.val, fromIter: true, del: e.del, ver: e.ver}
 	KV.items[item] = st
 	is.cur = st
 	return item
@@ -357,3 +441,20 @@ func ItemValue(item *badger.Item, fn func(val []byte) error) error {
 	poison(buf)
 	return err
 }
+
+// further Item accessors
+func ItemIsDeletedOrExpired(item *badger.Item) bool { return KV.items[item].del }
+func ItemVersion(item *badger.Item) uint64          { return KV.items[item].ver }
+func ItemUserMeta(item *badger.Item) byte           { return 0 }
+func ItemExpiresAt(item *badger.Item) uint64        { return 0 }
+func ItemValueSize(item *badger.Item) int64         { return int64(len(KV.items[item].val)) }
+func ItemEstimatedSize(item *badger.Item) int64 {
+	return int64(len(KV.items[item].key) + len(KV.items[item].val))
+}
+func ItemKeyCopy(item *badger.Item, dst []byte) []byte {
+	return append(dst[:0], KV.items[item].key...)
+}
+func ItemValueCopy(item *badger.Item, dst []byte) ([]byte, error) {
+	return append(dst[:0], KV.items[item].val...), nil
+}
+func ItemString(item *badger.Item) string { return KV.items[item].key }
